@@ -353,8 +353,18 @@ def r5_binify_guards(ctx):
             if not same(added, Sb0.E(f"{pb[0]}[_i0, 2]")):
                 bad = f"value added: {short(added)}"
                 # wrong only when it is recognisably another entry of the cycle table (another column, another row); anything else is not read
-                b_, ix_ = peel(added) if added is not None and not is_unknown(added) and not isinstance(added, (tuple, str)) else (None, [])
-                if not (b_ is not None and sym_of(b_) == pb[0] and len(ix_) == 2 and all(not isinstance(x, str) and (const_of(x) is not None or sym_of(x) is not None) for x in ix_)):
+                # (every atom of it is an entry cycles[<loop index or integer>, <integer>] or an entry of the accumulation matrix itself: fully read)
+                read_ = added is not None and not is_unknown(added) and not isinstance(added, (tuple, str))
+                if read_:
+                    for a_ in need(added).n.atoms() | need(added).d.atoms():
+                        b_, ix_ = peel(F.Rat(F.Poly.atom(a_)))
+                        entry = sym_of(b_) in (pb[0], mat) and len(ix_) == 2 and all(not isinstance(x, str) for x in ix_)
+                        if entry and sym_of(b_) == pb[0]:
+                            entry = all(const_of(x) is not None or (sym_of(x) or "").startswith("_i") for x in ix_)
+                        if not entry:
+                            read_ = False
+                            break
+                if not read_:
                     shape = False
                 break
         ok = bad is None and roles.get(True) == roles.get(False)
